@@ -6,11 +6,20 @@ A_SUMCOMM = 'L-SUMCOMM: interchange of finite double sums (column sums = 1 => to
 A_LIB = 'library containers (std::vector, boost::multi_array, shared_ptr) behave as sequences/references (models in vf/models.py)'
 DROPS = 'extraction drops: preprocessor-disabled OpenCL/OpenGL/PNG branches, destructors of temporaries, text output, exception propagation'
 
+PENDING = 'not yet claimed: units for this property are still being brought under contract (see DESIGN.md §10)'
+NOT_APPLICABLE = {
+    'C11': 'relation between two complete program executions through an HDF5 file; no function contract expresses it (DESIGN §6)',
+    'C20': 'behaviour is produced inside boost::program_options; a contract proof would be about an axiomatisation of boost (DESIGN §6)',
+}
+for _p in ('C01 C02 C03 C04 C05 C06 C07 C09 C10 C12 C13 C14 C15 C16 C17 C18 C19').split():
+    NOT_APPLICABLE[_p] = PENDING
+
 PROPERTIES = {
     'C08': {
         'units': [sm.CalcCoefficiants, sm.UpdateSM, sm.KickMapApply],
         'lemmas': [],
         'level': 'proof',
+        'claim': 'every transport map transforms bunch n using only bunch n data and the table rows belonging to n (or the shared rows); frames proved; unbounded in grid size, bunch count, interpolation order',
         'assumptions': [A_IDEAL, A_LIB, DROPS],
         'explanation': 'per-bunch functional postconditions (ghost cell n,x,y) and frames of every transport map',
     },
